@@ -1,8 +1,8 @@
 #!/bin/bash
-# ingest_seed.sh <ID> [name]: validate a sub-agent's seeded change in a fresh scratch worktree (patch applies, tests as baseline,
+# ingest_seed.sh <ID> [name] [subdir]: validate a sub-agent's seeded change in a fresh scratch worktree (patch applies, tests as baseline,
 # demo fails with / passes without), then store it under /verif/seeded/<name>/.
 id="$1"; name="${2:-$1}"
-src=${SEED_ROOT:-/tmp/seed}/$id/_seed
+src=${SEED_ROOT:-/tmp/seed}/$id/${3:-_seed}
 [ -f "$src/patch.diff" ] && [ -f "$src/demo.py" ] || { echo "missing files in $src"; exit 2; }
 wt=/tmp/seedcheck_$name
 git -C /repo worktree remove --force "$wt" 2>/dev/null; rm -rf "$wt"
